@@ -14,66 +14,6 @@ DOC = ("every pool of a scheduler is retained once when the scheduler is created
 RETAIN, RELEASE = "ABTI_pool_retain", "ABTI_pool_release"
 
 
-def _reaches_any(F, start, targets):
-    seen = set()
-    st = [start]
-    while st:
-        b = st.pop()
-        if b in seen:
-            continue
-        seen.add(b)
-        if b in targets:
-            return True
-        st.extend(s for s in F.blocks[b].succs if s is not None)
-    return False
-
-
-def _governing(F, nid, sites):
-    """Conditions that decide whether call nid runs, other than the pool loop, the NULL test of
-    the pool, assertions and error-exit guards.  Inside the loop the walk continues upwards through
-    guards (a guard may itself be nested in a condition); outside the loop a guard is terminal."""
-    bid = F.block_of(nid)
-    target_blocks = set(F.block_of(s) for s in sites)
-    arg = canon.expr(F, F.nodes[nid]["a"][0])
-    heads = [a for a, k in ctrldep.closure(F, bid) if F.blocks[a].tk in ("ForStmt", "WhileStmt", "DoStmt")]
-    head = heads[0] if heads else None
-
-    def in_loop(x):
-        return head is not None and _reaches_any(F, head, {x}) and _reaches_any(F, x, {head})
-    bad = []
-    seen = set()
-    work = [bid]
-    while work:
-        b = work.pop()
-        for a, k in ctrldep.direct(F, b, include_noret=False):
-            if (a, k) in seen:
-                continue
-            seen.add((a, k))
-            A = F.blocks[a]
-            inside = in_loop(a)
-            others = [s for j, s in enumerate(A.succs) if j != k and s is not None]
-            guard = bool(others) and (not any(_reaches_any(F, o, target_blocks) for o in others) or
-                                      all(F.blocks[o].noret for o in others))
-            if guard:
-                if inside:
-                    work.append(a)
-                continue
-            if A.tk in ("ForStmt", "WhileStmt", "DoStmt"):
-                if a == head:
-                    work.append(a)       # the loop over the pools
-                continue                 # an earlier loop that merely precedes this one
-            if A.tc is None:
-                bad.append("<%s>" % A.tk)
-                continue
-            aj, at = cfg.cond_atom(F, A.tc, True)
-            lab, flip = canon.cond(F, aj)
-            if lab == arg and inside:
-                work.append(a)           # NULL test of the pool that is released
-                continue
-            bad.append(lab)
-    return sorted(set(bad)), head is not None
-
-
 def rule_R9(P, rep):
     n = 0
     for fn, file, callee in (("sched_create", "src/sched/sched.c", RETAIN), ("ABTI_sched_free", "src/sched/sched.c", RELEASE)):
@@ -84,9 +24,10 @@ def rule_R9(P, rep):
         for i in mine:
             # error-undo sites (release inside sched_create) are governed by the failed step: only the
             # primary site of each routine is constrained
-            bad, loops = _governing(F, i, sites)
+            bad, loops = ctrldep.per_element(F, i, sites)
+            loops = loops is not None
             n += 1
             rep.ob("R9", "%s: %s(%s) runs for every pool of the scheduler" % (fn, callee, canon.expr(F, F.nodes[i]["a"][0])),
-                   not bad and bool(loops), ("also depends on %s" % bad) if bad else "not inside the loop over the pools",
+                   not bad and bool(loops), ("; ".join(bad)) if bad else "not inside the loop over the pools",
                    loc=F.loc(i), site="%s/%s" % (fn, callee))
     rep.need(n >= 2, "only %d retain/release sites" % n)
